@@ -750,6 +750,12 @@ func ruleC20Pred(e *Env) {
 			continue
 		}
 		c := hasCall(cl, p.must)
+		if c == nil && p.fn == "ErrorMatch" {
+			// the two-step spelling of regexp.MatchString: regexp.Compile(pattern) and re.MatchString(err.Error())
+			if hasCall(cl, "(*regexp.Regexp).MatchString") != nil {
+				c = hasCall(cl, "regexp.Compile")
+			}
+		}
 		switch {
 		case c == nil:
 			e.S.Bad(rule, "test."+p.fn, "assertion", p.fn+" does not evaluate "+p.what, e.Pos(fn), "")
